@@ -232,7 +232,32 @@ def make_env_fn(kind, log):
     return Base
 
 
-def build(cfg, seed, logs):
+def make_conf(cfg):
+    """the user's configuration objects of one pair, built ONCE as plain data and reused by every run of
+    the pair (as a user script would): noise arrays, policy_kwargs, learning rate"""
+    import numpy as np
+
+    conf = {"policy_kwargs": {"net_arch": [8]}, "learning_rate": 7e-4}
+    if cfg.get("noise"):
+        conf["noise_mean"] = np.zeros(2)
+        conf["noise_sigma"] = 0.3 * np.ones(2)
+        conf["initial_noise"] = np.array([0.1, -0.2]) if cfg.get("initial_noise") else None
+    return conf
+
+
+def conf_fingerprint(conf):
+    import numpy as np
+
+    out = {}
+    for k, v in conf.items():
+        if isinstance(v, np.ndarray):
+            out[k] = hashlib.sha256(np.ascontiguousarray(v).tobytes()).hexdigest()[:12] + f":{v.dtype}:{v.shape}"
+        else:
+            out[k] = json.dumps(v, sort_keys=True, default=str)
+    return out
+
+
+def build(cfg, seed, logs, conf):
     import numpy as np
     import torch as th
 
@@ -248,8 +273,8 @@ def build(cfg, seed, logs):
         venv = VecNormalize(venv, norm_obs=True, norm_reward=True)
     algo = cfg["algo"]
     policy = "MultiInputPolicy" if cfg["env"] in ("dict", "dictd", "goal") else "MlpPolicy"
-    kw = dict(seed=seed, device="cpu", verbose=0)
-    pk = {"net_arch": [8]}
+    kw = dict(seed=seed, device="cpu", verbose=0, learning_rate=conf["learning_rate"])
+    pk = conf["policy_kwargs"]  # the user's dict itself, not a copy
     if algo == "ppo":
         m = sb3.PPO(policy, venv, n_steps=8, batch_size=4 * n, n_epochs=2, use_sde=cfg.get("use_sde", False), sde_sample_freq=cfg.get("sde_sample_freq", -1), policy_kwargs=pk, **kw)
     elif algo == "a2c":
@@ -260,9 +285,9 @@ def build(cfg, seed, logs):
     else:
         noise = None
         if cfg.get("noise") == "normal":
-            noise = NormalActionNoise(np.zeros(2), 0.3 * np.ones(2))
+            noise = NormalActionNoise(conf["noise_mean"], conf["noise_sigma"])
         elif cfg.get("noise") == "ou":
-            noise = OrnsteinUhlenbeckActionNoise(np.zeros(2), 0.3 * np.ones(2))
+            noise = OrnsteinUhlenbeckActionNoise(conf["noise_mean"], conf["noise_sigma"], initial_noise=conf["initial_noise"])
         if noise is not None and n > 1:
             noise = VectorizedActionNoise(noise, n)
         extra = {}
@@ -419,10 +444,12 @@ class Monitor:
             setattr(obj, name, old)
 
 
-def run_once(cfg, seed):
+def run_once(cfg, seed, conf=None):
     logs = []
+    conf = make_conf(cfg) if conf is None else conf
+    conf_before = conf_fingerprint(conf)
     with Monitor() as mon:
-        m, venv = build(cfg, seed, logs)
+        m, venv = build(cfg, seed, logs, conf)
         setup_calls = list(mon.seed_calls)
         import torch as th
 
@@ -431,7 +458,8 @@ def run_once(cfg, seed):
         envs = sorted(logs, key=lambda e: e.idx)[: cfg["n_envs"]]
         fp = fingerprint(m, envs)
         m.get_env().reset()  # a second explicit reset: must not deliver the seeds again
-    return {"fp": fp, "entropy": mon.entropy, "setup_calls": setup_calls, "all_seed_calls": mon.seed_calls, "torch_initial_seed": init_seed,
+    conf_after = conf_fingerprint(conf)
+    return {"conf_before": conf_before, "conf_after": conf_after, "fp": fp, "entropy": mon.entropy, "setup_calls": setup_calls, "all_seed_calls": mon.seed_calls, "torch_initial_seed": init_seed,
             "reset_seeds": [list(e.reset_seeds) for e in envs]}
 
 
@@ -452,6 +480,11 @@ CONFIGS = [
     dict(algo="sac", env="goal", n_envs=1, total=40, her=True, her_strategy="final", vecnormalize=True, use_sde=True, sde_sample_freq=2, learning_starts=16),
     dict(algo="ppo", env="continuous", n_envs=2, total=32, vecnormalize=True, use_sde=True, sde_sample_freq=4),
     dict(algo="a2c", env="dictd", n_envs=3, total=30),
+    # action-noise objects built from the pair's shared configuration arrays (n_envs = 1: no VectorizedActionNoise copy)
+    dict(algo="td3", env="continuous", n_envs=1, total=30, noise="ou", initial_noise=True),
+    dict(algo="ddpg", env="continuous", n_envs=1, total=28, noise="ou", initial_noise=True),
+    dict(algo="sac", env="continuous", n_envs=1, total=28, noise="ou", initial_noise=True, learning_starts=8),
+    dict(algo="td3", env="continuous", n_envs=3, total=36, noise="normal"),
 ]
 
 
@@ -471,7 +504,12 @@ def main():
         chk.violation("scan-random-module-alias", f"{rel}:{line}: {why}", {"file": rel, "line": line, "why": why, "kind": "call-site scan"}, found_input=True)
     # ---- (2)+(3) paired runs
     rng = chk.rng
-    cfgs = list(CONFIGS)
+    cfgs = []
+    corpus = os.path.join(common.VERIF, "corpus", "C10.jsonl")
+    if os.path.exists(corpus):
+        cfgs += [json.loads(l) for l in open(corpus) if l.strip()]
+    n_corpus = len(cfgs)
+    cfgs += list(CONFIGS)
     if chk.tier == "thorough":
         for rep in range(10):
             for c in CONFIGS:
@@ -486,16 +524,26 @@ def main():
     hist = {}
     samples = []
     for ci, cfg in enumerate(cfgs):
-        s1 = rng.randint(0, 2**31 - 10)
+        s1 = cfg["seed"] if "seed" in cfg else rng.randint(0, 2**31 - 10)
         s2 = s1 + rng.choice([1, 2, 1000, 12345])
         try:
-            a, b, c = run_once(cfg, s1), run_once(cfg, s1), run_once(cfg, s2)
+            conf = make_conf(cfg)   # ONE configuration for the runs of the pair
+            a, b, c = run_once(cfg, s1, conf), run_once(cfg, s1, conf), run_once(cfg, s2, conf)
         except Exception as e:
             chk.violation(f"paired-run-exception-{cfg['algo']}", f"{type(e).__name__}: {e}", {"config": cfg, "seed": s1}, found_input=True)
             continue
         pairs += 1
         hist[cfg["algo"]] = hist.get(cfg["algo"], 0) + 1
         probs = []
+        for r_, which in ((a, "first"), (b, "second"), (c, "third")):
+            changed = [k for k in r_["conf_before"] if r_["conf_before"][k] != r_["conf_after"][k]]
+            arrays = [k for k in changed if k != "policy_kwargs"]
+            if arrays:
+                probs.append((f"run-mutates-configuration-{arrays[0]}", f"{cfg['algo']}/{cfg['env']}/n_envs={cfg['n_envs']}: the {which} run (seed {s1 if which != 'third' else s2}) changed the caller's "
+                              f"configuration object {arrays[0]!r} ({r_['conf_before'][arrays[0]]} -> {r_['conf_after'][arrays[0]]}): the next run built from the same configuration starts from different data"))
+                break
+            if changed:
+                hist["policy_kwargs_extended_in_place"] = hist.get("policy_kwargs_extended_in_place", 0) + 1
         for k in ("parameters", "buffers", "actions", "vecnormalize"):
             if a["fp"][k] != b["fp"][k]:
                 probs.append((f"same-seed-different-{k}", f"{cfg['algo']}/{cfg['env']}/n_envs={cfg['n_envs']}: two runs with seed {s1} differ in {k}"))
@@ -552,6 +600,7 @@ def main():
     chk.notes["scan"] = {"sites": len(sites), "by_tag": by_tag, "failures": len(oracle_bad) + len(failures), "reviewed_exceptions": [list(x) for x in allowed],
                          "skipped": list(SKIP_DIRS) + list(SKIP_FILES)}
     chk.notes["input_distribution"] = hist
+    chk.notes["corpus_cases"] = n_corpus
     chk.add_samples(samples)
     chk.assumptions += [
         "bit-reproducibility is decided by paired runs in one process on one machine (CPU, one torch thread); configurations that were not run are unseen",
@@ -570,9 +619,11 @@ def replay(path):
         print(json.dumps({"scan_failures": [list(map(str, b)) for b in bad[:10]]}, indent=1))
         return 1 if bad else 0
     cfg, s1, s2 = r["config"], r["seed"], r.get("other_seed", r["seed"] + 1)
-    a, b, c = run_once(cfg, s1), run_once(cfg, s1), run_once(cfg, s2)
-    same = a["fp"] == b["fp"]
+    conf = make_conf(cfg)
+    a, b, c = run_once(cfg, s1, conf), run_once(cfg, s1, conf), run_once(cfg, s2, conf)
+    mutated = [k for k in a["conf_before"] if a["conf_before"][k] != a["conf_after"][k] and k != "policy_kwargs"]
+    same = a["fp"] == b["fp"] and not mutated
     diff = a["fp"]["parameters"] != c["fp"]["parameters"]
-    print(json.dumps({"same_seed_identical": same, "different_seed_differs": diff, "entropy": a["entropy"][:3], "fingerprints": [a["fp"], b["fp"], c["fp"]],
+    print(json.dumps({"configuration_mutated_by_first_run": mutated, "same_seed_identical": same, "different_seed_differs": diff, "entropy": a["entropy"][:3], "fingerprints": [a["fp"], b["fp"], c["fp"]],
                       "reset_seeds": [s[:5] for s in a["reset_seeds"]]}, indent=1, default=str))
     return 0 if (same and diff and not a["entropy"]) else 1
